@@ -61,7 +61,7 @@ func main() {
 		r := rt.NewRun("warm")
 		scratch, _, err := instrBuild(r)
 		if err == nil {
-			cmd := exec.Command("go", "build", "-race", "-o", filepath.Join(scratch, "verif-race"), "./cmd/verif")
+			cmd := exec.Command("go", rt.GoBuild("-race", "-o", filepath.Join(scratch, "verif-race"), "./cmd/verif")...)
 			cmd.Dir = filepath.Join(rt.Root, "mc")
 			if out, e := cmd.CombinedOutput(); e != nil {
 				err = fmt.Errorf("%v: %s", e, out)
